@@ -421,6 +421,7 @@ def topo_archetypes(rng, zones):
     def anti_ns(p): p["anti"] = [topo_term("zone", "x", ns=["other"])]
     def anti_allns(p): p["anti"] = [topo_term(rng.choice(["zone", "host"]), "x", nsAll=True)]
     def anti_nssel(p): p["anti"] = [topo_term("zone", "x", nsSel={"tier": "prod"})]
+    def anti_ns_and_sel(p): p["anti"] = [topo_term("zone", "x", ns=["other"], nsSel={"tier": "dev"})]
     def aff_ns(p): p["aff"] = [topo_term("zone", "x", ns=["other", "default"])]
     def aff_nssel(p): p["aff"] = [topo_term("zone", "x", nsSel={"tier": "prod"})]
     def daemon_shaped(p): p["owner"] = "ds:dsx"; p["labels"]["app"] = "x"
@@ -428,7 +429,7 @@ def topo_archetypes(rng, zones):
            self_aff_zone_sel, aff_and_anti, pref_anti, pref_aff, spread_zone, spread_zone2, spread_zone_min, spread_host, spread_zone_host,
            spread_limited, spread_limited_terms, spread_two_terms, spread_ignore, spread_honor_taints, spread_honor_tol, spread_matchkeys,
            spread_anyway, spread_ct, spread_other_sel, spread_not_self, spread_pref_zone, other_ns_x, other_ns_spread, anti_ns, anti_allns,
-           anti_nssel, aff_ns, aff_nssel, daemon_shaped]
+           anti_nssel, anti_ns_and_sel, aff_ns, aff_nssel, daemon_shaped]
     return fns
 
 
